@@ -356,20 +356,9 @@ func (ts *TermStore) Eq(a, b *Term) *Term {
 		}
 		return ts.Eq(inner, ts.Const(b.val, inner.bits))
 	}
-	if b.isConst() && a.op == OpIte && a.args[1].isConst() && a.args[2].isConst() {
-		// ite(c, k1, k2) == k
-		t1 := a.args[1].val == b.val
-		t2 := a.args[2].val == b.val
-		switch {
-		case t1 && t2:
-			return ts.tt
-		case t1:
-			return a.args[0]
-		case t2:
-			return ts.Not(a.args[0])
-		default:
-			return ts.ff
-		}
+	if b.isConst() && a.op == OpIte && (a.args[1].isConst() || a.args[2].isConst()) {
+		// push the comparison into ite chains with constant leaves
+		return ts.Ite(a.args[0], ts.Eq(a.args[1], b), ts.Eq(a.args[2], b))
 	}
 	if a.id > b.id {
 		a, b = b, a
@@ -443,6 +432,14 @@ func (ts *TermStore) Bin(op Op, a, b *Term) *Term {
 			return ts.Bool(sx < sy)
 		case OpSLe:
 			return ts.Bool(sx <= sy)
+		}
+	}
+	if cmp {
+		if b.isConst() && a.op == OpIte && (a.args[1].isConst() || a.args[2].isConst()) {
+			return ts.Ite(a.args[0], ts.Bin(op, a.args[1], b), ts.Bin(op, a.args[2], b))
+		}
+		if a.isConst() && b.op == OpIte && (b.args[1].isConst() || b.args[2].isConst()) {
+			return ts.Ite(b.args[0], ts.Bin(op, a, b.args[1]), ts.Bin(op, a, b.args[2]))
 		}
 	}
 	// comparisons of zero-extended narrow values with constants
@@ -566,6 +563,69 @@ func (ts *TermStore) Resize(a *Term, n int, signed bool) *Term {
 		return ts.Resize(a.args[0], n, false)
 	}
 	return ts.mk(OpZExt, n, uint64(n-a.bits), "", a)
+}
+
+// Subst rebuilds t with variables replaced by constants (fixed: var index -> value).
+func (ts *TermStore) Subst(t *Term, fixed map[int]uint64, fixedSet varset, memo map[*Term]*Term) *Term {
+	if !t.vars.intersects(fixedSet) {
+		return t
+	}
+	if r, ok := memo[t]; ok {
+		return r
+	}
+	var r *Term
+	switch t.op {
+	case OpVar:
+		r = ts.Const(fixed[ts.varIdx[t.name]], t.bits)
+	case OpConst:
+		r = t
+	default:
+		args := make([]*Term, len(t.args))
+		for i, a := range t.args {
+			args[i] = ts.Subst(a, fixed, fixedSet, memo)
+		}
+		r = ts.rebuild(t, args)
+	}
+	memo[t] = r
+	return r
+}
+
+// rebuild re-applies t's operator to new arguments through the simplifying constructors.
+func (ts *TermStore) rebuild(t *Term, a []*Term) *Term {
+	switch t.op {
+	case OpNot:
+		return ts.Not(a[0])
+	case OpAnd:
+		return ts.And(a[0], a[1])
+	case OpOr:
+		return ts.Or(a[0], a[1])
+	case OpIte:
+		return ts.Ite(a[0], a[1], a[2])
+	case OpEq:
+		return ts.Eq(a[0], a[1])
+	case OpNeg:
+		return ts.Neg(a[0])
+	case OpBNot:
+		return ts.BNot(a[0])
+	case OpZExt:
+		return ts.Resize(a[0], t.bits, false)
+	case OpSExt:
+		return ts.Resize(a[0], t.bits, true)
+	case OpExtract:
+		hi, lo := int(t.val>>8), int(t.val&0xff)
+		if a[0].isConst() {
+			return ts.Const(a[0].val>>uint(lo), hi-lo+1)
+		}
+		return ts.mk(OpExtract, t.bits, t.val, "", a[0])
+	case OpConcat:
+		if a[0].isConst() && a[1].isConst() {
+			return ts.Const(a[0].val<<uint(a[1].bits)|a[1].val, t.bits)
+		}
+		return ts.mk(OpConcat, t.bits, 0, "", a...)
+	case OpApp:
+		return ts.mk(OpApp, t.bits, 0, t.name, a...)
+	}
+	return ts.Bin(t.op, a[0], a[1])
 }
 
 // DeclareUF registers an uninterpreted function symbol.
